@@ -34,7 +34,13 @@ def case_strategy(draw):
                          scalar_rhs=draw(st.booleans())))
     if kind == "simplex":
         cons = cons if draw(st.booleans()) else []
-    return dict(lens=lens, kind=kind, x0=x0, objective=objective, cons=cons, total=draw(st.sampled_from([1.0, 1.0, 4.0, 25.0])),
+    shared = None
+    if draw(st.integers(0, 3)) == 0:
+        # one function object g = M*x_k (square M) used twice: inside  x_k + g <= .  and on its own in  g <= .
+        k = draw(st.integers(0, nv - 1))
+        shared = dict(var=k, M=[[draw(st.sampled_from(rm.DY)) for _ in range(lens[k])] for _ in range(lens[k])],
+                      slack=draw(st.sampled_from([0.5, 1.0, 2.0])), left_first=draw(st.booleans()))
+    return dict(lens=lens, kind=kind, x0=x0, objective=objective, cons=cons, total=draw(st.sampled_from([1.0, 1.0, 4.0, 25.0])), shared=shared,
                 format=draw(st.sampled_from(["dense", "sparse"])), solver=draw(st.sampled_from(["default", "default", "glpk"])),
                 sparse=draw(st.booleans()), ub_var=draw(st.integers(0, nv - 1)))
 
@@ -101,6 +107,17 @@ def model(case):
             ref_eq.append(["sub", t, ["const", v0.tolist()]])
             cv_cons.append(f == (float(v0[0]) if L == 1 else rm.cvx_col(v0)))
             meta.append("e")
+    sh = case.get("shared")
+    if sh and kind in ("feas", "simplex"):
+        k = sh["var"]
+        tg = ["matmul", sh["M"], ["var", k]]
+        g = rm.build(tg, xs, flags)                      # ONE object, used in two constraints
+        _, _, vg = rm.evaluate(tg, lens, x0)
+        tsum = ["add", ["var", k], tg] if sh["left_first"] else ["add", tg, ["var", k]]
+        _, _, vs = rm.evaluate(tsum, lens, x0)
+        hsum = (xs[k] + g) if sh["left_first"] else (g + xs[k])
+        add_ineq(["sub", tsum, ["const", (vs + sh["slack"]).tolist()]], hsum <= rm.cvx_col(vs + sh["slack"]))
+        add_ineq(["sub", tg, ["const", (vg + sh["slack"]).tolist()]], g <= rm.cvx_col(vg + sh["slack"]))
     objective = case["objective"]
     if kind == "infeas":
         k = case["ub_var"]
